@@ -148,6 +148,37 @@ fn p_owned_skipping_consumers() {
     kani::cover!(how == 1 && k == 2 && n == 3, "skip(2) of 3");
     kani::cover!(how == 2 && n == 2, "last of 2");
 }
+/// a source that is NOT fused: yields items[0..3] (each possibly None), then None
+#[derive(Clone, Copy)]
+struct Gappy { items: [Option<u32>; 3], pos: usize }
+impl Iterator for Gappy { type Item = u32; fn next(&mut self) -> Option<u32> { if self.pos < 3 { self.pos += 1; self.items[self.pos - 1] } else { None } } }
+#[kani::proof]
+#[kani::unwind(6)]
+fn p_next_consumers_nonfused_twin() {
+    // any standard consumer applied to the CIterator behaves as the same consumer applied to the
+    // wrapped iterator itself: same answer, source left at the same position (also when the
+    // source is not fused and reports None in the middle)
+    let items: [Option<u32>; 3] = kani::any();
+    let mut src = Gappy { items, pos: 0 };
+    let mut twin = src;
+    let k: usize = kani::any();
+    kani::assume(k <= 3);
+    let how: u8 = kani::any();
+    kani::assume(how < 4);
+    let (a, b) = {
+        let mut c = CIterator::new(&mut src);
+        match how {
+            0 => (c.nth(k), twin.nth(k)),
+            1 => ((&mut c).skip(k).next(), (&mut twin).skip(k).next()),
+            2 => { let x = c.next(); let y = twin.next(); let _ = (c.next(), twin.next()); (x.or(c.next()), y.or(twin.next())) }
+            _ => ((&mut c).take(k).last(), (&mut twin).take(k).last()),
+        }
+    };
+    assert!(a == b, "C15 a consumer over the CIterator answers as the same consumer over the wrapped iterator");
+    assert!(src.pos == twin.pos, "C15 and leaves the source at the same position (one poll of the source per poll of the wrapper)");
+    kani::cover!(how == 0 && k == 2 && items[1].is_none() && items[2].is_some(), "nth across a None of a non-fused source");
+    kani::cover!(how == 1 && k == 1, "skip");
+}
 struct Pz;
 impl Drop for Pz { fn drop(&mut self) { unsafe { DROPS += 1 } } }
 #[repr(align(64))]
